@@ -198,7 +198,7 @@ def run_session(tag, cfg, seed, ops_filter=None, redeliver=True, setup_only=Fals
     if setup_only:
         s.ok = True
         return s
-    ops = ["ping"] * 6 + ["up"] * 3 + ["down"] * 5 + ["burst", "idle", "id0", "aux", "hs", "badip", "downsoon", "upsmall", "rawop", "refrag", "refrag", "dupsoon", "dupsoon", "c2c", "c2c", "reborn", "lazyoff", "reflect", "reflect"]
+    ops = ["ping"] * 6 + ["up"] * 3 + ["down"] * 5 + ["burst", "idle", "id0", "aux", "hs", "badip", "downsoon", "upsmall", "rawop", "refrag", "refrag", "dupsoon", "dupsoon", "c2c", "c2c", "reborn", "lazyoff", "reflect", "reflect", "dupv"]
     if cfg.get("sendfaults"):
         ops += ["sendfault"] * 3 + ["dupfault"] * 2
     if s.fwd is not None:
@@ -519,6 +519,21 @@ def do_op(s, mc, op, rng):
         if len(k.send_faults) < 2:
             k.send_faults.append({"proc": "srv", "dst_port": None, "errno": rng.choice([105, 1, 11]), "count": 1,
                                   "skip": rng.choice([0, 0, 1, 1, 2, 3])})
+    elif op == "dupv":
+        # a relay delivers the session's own version request once more, long after the handshake (byte for byte; same or new
+        # DNS id).  Whoever that makes the server greet, the established session's settings stay what they were.
+        vd = getattr(mc, "v_dgram", None)
+        if vd is not None:
+            if rng.random() < 0.5:
+                vd = struct.pack(">H", mc.new_id()) + vd[2:]
+            mc.send_raw_dgram(vd)
+            k.run(k.now + rng.choice([3000, 30000]))
+            mc.drain()
+            f = mk_frame(s, mc, "down", rng, size=rng.choice([400, 1000]))
+            f = proto.make_frame(s.server_tun_ip, mc.tun_ip, (s.ident << 8) | 0xD7, len(f), "random", rng)
+            s.offered_down.append(f)
+            k.offer_tun("srv", f, s.ident)
+            mc.pump(rng.choice([300000, 1000000]), 40000)
     elif op == "dupfault":
         # A held query whose copy (new id) the server remembers as well is answered because a packet arrives on the tun device
         # (or on the 20 ms timer) - two sends - and the operating system refuses the first or the second of them.  Whatever the
